@@ -2,7 +2,9 @@ package c14
 
 import (
 	"fmt"
+	"os"
 	"sort"
+	"strconv"
 	"strings"
 
 	"github.com/zenon-network/go-zenon/chain/nom"
@@ -256,6 +258,9 @@ func (e *schedEnv) after(name string, n *vnode.Node, adm map[string]bool, seen *
 	return func(x *sched.Exec) {
 		db.VerifWriteHook = nil
 		defer n.Destroy()
+		if x.Skipped {
+			return
+		}
 		rep := map[string]interface{}{"part": "sched", "scenario": name, "schedule": x.Choices}
 		if x.Deadlock {
 			r.Violate("C14:sched:"+name+":deadlock", "deadlock", rep)
@@ -314,6 +319,13 @@ var schedNames = []string{"S1-inserter-vs-readers", "S3-rollback-vs-readers", "S
 
 func runSched(c *xs.Ctx, r *xs.Result) {
 	e := newSchedEnv(c, r)
+	if k, _ := strconv.Atoi(os.Getenv("VERIF_C14_PROBE")); k > 0 { // development aid: determinism self-test of the scenarios
+		for _, name := range schedNames {
+			ex := &sched.Explorer{Scenario: e.scenario(name)}
+			fmt.Fprintf(os.Stderr, "PROBE %s: %q\n", name, ex.Probe(k))
+		}
+		return
+	}
 	bound := 1
 	if c.Thorough() {
 		bound = 2
@@ -324,6 +336,12 @@ func runSched(c *xs.Ctx, r *xs.Result) {
 		r.Count("sched_executions", ex.Stats.Executions)
 		r.Count("sched_points", ex.Stats.Points)
 		r.Count("sched_deadlocks", ex.Stats.Deadlocks)
+		if ex.Stats.DivergentSkipped > 0 {
+			r.Incomplete = true
+			r.Count("sched_divergent_prefixes_skipped", ex.Stats.DivergentSkipped)
+			r.Note("C14 sched %s: %d choice prefixes did not reproduce their recorded execution after 5 retries and were skipped (last: %s)", name, ex.Stats.DivergentSkipped, ex.Stats.LastDivergence)
+		}
+		r.Count("sched_divergence_retries", ex.Stats.DivergenceRetries)
 		if ex.Stats.Incomplete {
 			r.Incomplete = true
 			r.Note("C14 sched %s: deadline before preemption bound %d was completed (%d executions in this shard)", name, bound, ex.Stats.Executions)
